@@ -820,7 +820,11 @@ def _sbml_to_model(
         rid = _check_required(reaction, reaction.getIdAttribute(), "id")
         if f_replace and F_REACTION in f_replace:
             rid = f_replace[F_REACTION](rid)
-        cobra_reaction = Reaction(rid)
+        # Start from open bounds: the bounds are assigned one after the other
+        # below and must not conflict with the default of the other bound.
+        cobra_reaction = Reaction(
+            rid, lower_bound=float("-inf"), upper_bound=float("inf")
+        )
         cobra_reaction.name = reaction.getName().strip()
         cobra_reaction.annotation = _parse_annotations(reaction)
         cobra_reaction.notes = _parse_notes_dict(reaction)
